@@ -83,7 +83,7 @@ var mutationsFrom = []string{`"insert"`, `"user"`, `"1"`, `{"id":"1","name":"x"}
 var mutationsTo = []string{`5`, `null`, `[]`, `{}`, `"delete"`, `"bogus"`, `""`, `true`, `"value"`, `{"id":7}`, `{"id":"1","name":5}`, `[1]`, `"user"`, `"a/b"`, `"hdrs"`, `{"control":"reset"}`, `1e999`, `"\u0000"`}
 
 func GenHostile(t *rapid.T) *HostileCase {
-	c := &HostileCase{Strict: rapid.Bool().Draw(t, "strict")}
+	c := &HostileCase{Strict: rapid.Bool().Draw(t, "strict"), Opts: rapid.IntRange(0, 7).Draw(t, "opts")}
 	switch rapid.IntRange(0, 5).Draw(t, "mode") {
 	case 0:
 		c.Data = string(rapid.SliceOfN(rapid.Byte(), 0, 40).Draw(t, "bytes"))
